@@ -96,6 +96,10 @@ def main():
             text += (f" The decision logic of {GUARDS[pid]} is re-translated from the source into Lean on every run (translate/py2lean_guards.py → LK/Generated/Guards{pid}.lean) "
                      f"and proved to be the model's (LK/Proofs/Guards{pid}.lean); a broken obligation triggers the failing-input search.")
             tech += " + per-run translation of decision logic with proof obligations"
+        if pid == "C17":
+            text += (" _expand_and_align_list_array is re-translated statement by statement on every run (translate/py2lean_arrow.py → LK/Generated/ArrowC17.lean) and proved equal to the model's expandAlign "
+                     "(expandAlignT_eq: scatter of lengths + cumulative sum = prefix sums; null mask), hence to read back what was supplied.")
+            tech += " + per-run translation of the list-array alignment proved equal to the model"
         if pid == "C05":
             text += " The holdout methods SampleN / SampleFrac / LastN / LastFrac are re-translated on every run (translate/py2lean_holdout.py) and LastN is proved equal to the model's repaired lastN."
         if pid == "C06":
